@@ -263,3 +263,27 @@ func VerifC04_GarbageCollect() {
 		}
 	}
 }
+
+// VerifC04_EmptyPath: removing "nothing" removes nothing -- an empty path is
+// not the working directory.
+func VerifC04_EmptyPath() {
+	lfs := newLinkFs()
+	_ = vC04Populate(lfs)
+	fs := NewVirtualFileSystem(lfs, InMemoryFS, IdentityPathConverterFunc)
+	before := lfs.snapshot()
+	lfs.reset()
+	ctx := context.Background()
+	var err error
+	switch verif.Choice("op", 4) {
+	case 0:
+		err = fs.Rm("")
+	case 1:
+		err = fs.RemoveWithContext(ctx, "")
+	case 2:
+		err = fs.CleanDirWithContext(ctx, "")
+	case 3:
+		err = fs.RemoveWithContextAndExclusionPatterns(ctx, "", "x")
+	}
+	verif.Observe("failed", err != nil)
+	verif.Assert("an_empty_path_removes_nothing", vSameEntries(before, lfs.snapshot()) && len(lfs.mutations()) == 0)
+}
